@@ -455,7 +455,13 @@ class Frame(ContainerOperand):
         else:
             block_gen = blocks
 
-        return cls(TypeBlocks.from_blocks(block_gen()),
+        # a shape reference is needed if the aligned axis (e.g., an empty intersection) leaves no blocks
+        if axis == 0:
+            shape_reference = (sum(len(f._index) for f in frames), len(columns)) #type: ignore
+        else:
+            shape_reference = (len(index), sum(len(f._columns) for f in frames)) #type: ignore
+
+        return cls(TypeBlocks.from_blocks(block_gen(), shape_reference=shape_reference),
                 index=index,
                 columns=columns,
                 name=name,
